@@ -102,6 +102,15 @@ theorem c10_shutdownNow_drains (c : Cfg) (hv : c.Valid) (s : St) (hr : (sys c).R
     s.queue = [] :=
   (reach_invN c (vle c hv) s hr).glob hc hn hdone
 
+/-- **The pool keeps its core workers.**  As long as the pool has not been shut down and no worker has taken
+    the idle-timeout exit (e.g. the idle time has not elapsed), the live-worker counter is at least
+    min(coreGo, the highest value it ever had): accepted tasks in the queue of a running pool that once had
+    workers always have a worker left to execute them.  (The surplus-worker exit checks `coreGo < totalGo`
+    and decrements inside one critical section; seeded defect C10-c moved the decrement out of it.) -/
+theorem c10_core_floor (c : Cfg) (hv : c.Valid) (s : St) (hr : (sys c).Reachable s)
+    (hidle : s.idleExits = 0) (hrun : shutBegun s.life = false) : min c.coreGo s.hwmGo ≤ s.totalGo :=
+  (reach_invK c (vle c hv) s hr).glob hidle hrun
+
 /-! ### "a panicking task is contained: it counts as executed and the pool goes on executing the others" -/
 
 /-- a task's run count is incremented when `task.Run` is entered (`incRun`), whatever it does then;
